@@ -370,7 +370,8 @@ func waitCaughtUp(c cache.Cache, s *Store, pool string) (bool, string) {
 		}
 		for _, n := range wn {
 			h := hn[n.Name]
-			if h == nil || !metaEq(&h.ObjectMeta, &n.ObjectMeta) || !equality.Semantic.DeepEqual(h.Spec, n.Spec) {
+			if h == nil || !metaEq(&h.ObjectMeta, &n.ObjectMeta) || !equality.Semantic.DeepEqual(h.Spec, n.Spec) ||
+				!equality.Semantic.DeepEqual(h.Status.Allocatable, n.Status.Allocatable) || !equality.Semantic.DeepEqual(h.Status.Conditions, n.Status.Conditions) {
 				return "node " + n.Name
 			}
 		}
